@@ -1,5 +1,5 @@
 """Small temporal problems built through the real unified_planning API, time-triggered plans for them, and their
-serialisation to UPV.Planning.Temporal records (C05; the plan scheduler is reused by C04).
+serialisation to UPV.Planning.Temporal records (C05).
 
 Everything derives from the rng passed in.  The problems stay inside TimeTriggeredPlanValidator.supported_kind():
 condition intervals either have both delays 0 or both bounds "intermediate" (start + d, end - d with d > 0), because
